@@ -171,6 +171,12 @@ def audit(prop_modules, pinned_theorems):
         for mod in prop_modules:
             f.write(f'import {mod}\n')
         f.write('open Cnl2aspModel\n')
+        nss = set()
+        for mod in prop_modules:
+            with open(os.path.join(LEAN_DIR, mod.replace('.', '/') + '.lean')) as mf:
+                nss |= set(re.findall(r'^namespace\s+(\S+)', mf.read(), flags=re.M))
+        for ns in sorted(nss):
+            f.write(f'open {ns}\n')
         for t in thms:
             f.write(f'#print axioms {t}\n')
     p = subprocess.run(['lake', 'env', 'lean', apath], cwd=LEAN_DIR, capture_output=True, text=True)
